@@ -242,6 +242,7 @@ class T:
         self.trusted = set()
         self.mode = None
         self.samples = []
+        self.finite = None  # set-level tasks: {"N": z3 Int, "replay": builder} enables candidate search + replay
 
     # ---- inputs ----------------------------------------------------------
     def inp(self, name, desc):
@@ -265,10 +266,11 @@ class T:
     def func(self, relpath, qualname):
         return extract.get_function(relpath, qualname)
 
-    def run(self, relpath, qualname, args=(), kwargs=None, self_val=None, argnames=None):
+    def run(self, relpath, qualname, args=(), kwargs=None, self_val=None, argnames=None, setmode=False):
         """Symbolically execute the real function. Returns list[Path]."""
         fref = extract.get_function(relpath, qualname)
         ex = Exec(self.ctx, contracts=self.contracts, hooks=self.hooks)
+        ex.setmode = setmode
         st = State()
         st.pc = list(self.pre)
         st.frames.append(Frame(fref.module))
@@ -312,6 +314,24 @@ class T:
         asm = base + relevant_facts(self.ctx.facts, base + [goal])
         res = solve.check_valid(asm, goal, timeout_ms or self.timeout_ms, tactic=tactic)
         extra = {}
+        if res["status"] == "unknown" and self.finite is not None:
+            from . import finite
+
+            for size in (1, 2, 3):
+                found = finite.search(asm, goal, self.finite.get("N"), sizes=(size,))
+                if found is None:
+                    continue
+                res = {"status": "failed", "backend": "z3 (candidate from finite expansion, universe size %d; confirmed only by replay)" % found[1],
+                       "seconds": res.get("seconds"), "model": solve.model_to_dict(found[0]), "_z3model": found[0],
+                       "bounded_candidate": True}
+                replay = self.finite.get("replay", replay)
+                self.finite["n"] = found[1]
+                # validate the candidate on the real code right away; keep searching larger universes otherwise
+                rp = self._make_replay(clause, res, replay)
+                from .replayrun import run_replay
+                ok, _ = run_replay(rp)
+                if ok:
+                    break
         if res["status"] == "failed":
             extra["replay"] = self._make_replay(clause, res, replay)
         if len(self.samples) < 3:
@@ -428,10 +448,10 @@ class T:
         return path
 
     def _replay_body(self, m, replay):
-        if self.last_call is None:
-            return None
         if callable(replay):
             return replay(m)
+        if self.last_call is None:
+            return None
         me = lambda x: m.eval(V.Z(x), model_completion=True)
         call = self.last_call
         by_sym = {}
